@@ -331,7 +331,7 @@ func c15NewUpstream() (*c15UpstreamT, error) {
 	pool := x509.NewCertPool()
 	pool.AddCert(leaf)
 
-	ln, err := net.Listen("tcp", "127.0.0.1:0")
+	ln, err := verifListen("127.0.0.1:0")
 	if err != nil {
 		return nil, err
 	}
@@ -492,7 +492,7 @@ func c15GetService(trusted []string) (*c15Service, error) {
 
 	conf := &config.Configuration{Serve: config.ServeConfig{Proxy: sc}}
 
-	ln, err := net.Listen("tcp", "127.0.0.1:0")
+	ln, err := verifListen("127.0.0.1:0")
 	if err != nil {
 		return nil, err
 	}
@@ -620,7 +620,7 @@ func c15Send(addr, peer string, r *c15Req) (int, bool, error) {
 		return 0, false, err
 	}
 
-	defer conn.Close()
+	defer verifCloseNow(conn)
 
 	_ = conn.SetDeadline(time.Now().Add(10 * time.Second))
 
